@@ -124,6 +124,9 @@ enum FormatDirective {
 #[derive(Debug, PartialEq, Eq)]
 enum FormatComponent {
     Literal(String),
+    /// An octal escape above `\177`: that byte (not the character with
+    /// that number, which would be written as two bytes).
+    Byte(u8),
     Flush,
     Directive {
         directive: FormatDirective,
@@ -182,7 +185,9 @@ impl FormatStringParser<'_> {
                 // safe to unwrap: .peek() already succeeded above.
                 let octal = self.advance_by(OCTAL_LEN).unwrap();
                 return match char::from_u32(code) {
-                    Some(c) => Ok(FormatComponent::Literal(c.to_string())),
+                    Some(c) if c.is_ascii() => Ok(FormatComponent::Literal(c.to_string())),
+                    // Three octal digits: the value taken as a byte.
+                    Some(_) => Ok(FormatComponent::Byte(code as u8)),
                     None => Err(format!("Invalid character value: \\{octal}").into()),
                 };
             }
@@ -638,6 +643,7 @@ impl Printf {
         for component in &self.format.components {
             match component {
                 FormatComponent::Literal(literal) => write!(out, "{literal}")?,
+                FormatComponent::Byte(byte) => out.write_all(&[*byte])?,
                 FormatComponent::Flush => out.flush()?,
                 FormatComponent::Directive {
                     directive,
